@@ -9,6 +9,7 @@ import (
 
 	"github.com/openziti/storage/ast"
 	"github.com/openziti/storage/boltz"
+	"github.com/openziti/storage/objectz"
 	"github.com/openziti/storage/zitiql"
 	"go.etcd.io/bbolt"
 	rm "verif/refmodel"
@@ -20,10 +21,20 @@ import (
 
 type c10Env struct {
 	worlds [3]*qWorld // empty store, all-null entity, populated
+	// the same three datasets as in-memory object stores: a second symbol table (objectz answers
+	// "found" for every name in IsSet, so unknown names reach the typing pass)
+	objs [3]*objectz.ObjectStore[*c19Obj]
 }
 
 func newC10Env() *c10Env {
 	env := &c10Env{}
+	sp, ip, fp, bp, tp := "a", int64(4), 4.5, true, qT0
+	es := ""
+	objSets := [3][]*c19Obj{{}, {{id: "e1"}}, {{id: "e1", s: &sp, i: &ip, f: &fp, b: &bp, t: &tp}, {id: "e2", s: &es}, {id: "e3"}}}
+	for i := range objSets {
+		set := objSets[i]
+		env.objs[i] = newObjStore(&set)
+	}
 	for i := range env.worlds {
 		w := newQWorld()
 		w.open()
@@ -68,6 +79,7 @@ func (env *c10Env) close() {
 
 // check runs one input through parse (+ evaluation when accepted). Returns whether it was accepted.
 func (env *c10Env) check(rep *report.Report, class, text string) bool {
+	env.checkObj(rep, class, text)
 	w0 := env.worlds[0]
 	q, err, pan := safeParse(w0.people, text)
 	if pan != nil {
@@ -234,7 +246,7 @@ func C10(tier string) int {
 	// ---- (3) operand-type mixes
 	syms := []string{"s", "i", "nn", "f", "b", "t", "id", "boss", "tags.k", "boss.s", "boss.t", "roles", "reports", "places",
 		"anyOf(roles)", "allOf(roles)", "anyOf(reports.i)", "allOf(reports.t)", "anyOf(reports.b)", "anyOf(reports.tags.k)", "anyOf(places.name)", "anyOf(reports)",
-		"count(roles)", "count(reports)", "count(from reports where s = \"a\")", "count(from places where name = \"x\")", "anyOf(s)", "count(s)", "nosuch", "anyOf(nosuch)"}
+		"count(roles)", "count(reports)", "count(reports.s)", "count(places.name)", "count(reports.roles)", "count(reports.reports)", "count(reports.boss)", "count(from reports where s = \"a\")", "count(from places where name = \"x\")", "anyOf(s)", "count(s)", "nosuch", "anyOf(nosuch)"}
 	lits := []string{`"a"`, `""`, "5", "-5", "4.5", "1e3", "99999999999999999999", "true", "FALSE", "null", "datetime(2020-01-02T03:04:05Z)", "datetime(2020-13-02T03:04:05Z)"}
 	ops := []string{"=", "!=", "<", "<=", ">", ">=", "contains", "not contains", "icontains", "not icontains"}
 	var sentences []string
@@ -308,6 +320,29 @@ func C10(tier string) int {
 
 	rep.Set("evaluations", rep.Get("evaluations"))
 	return rep.Finish()
+}
+
+// checkObj runs one input through the in-memory object store (parse + scan + sort + page) on the three datasets.
+func (env *c10Env) checkObj(rep *report.Report, class, text string) {
+	for i, st := range env.objs {
+		var pan interface{}
+		var err error
+		func() {
+			defer func() { pan = recover() }()
+			_, _, err = st.QueryEntities(text)
+		}()
+		if pan != nil {
+			rep.Violation("C10|panic-objectstore|"+text, fmt.Sprintf("objectz.ObjectStore.QueryEntities(%q) on dataset %d (0=empty,1=all-null object,2=populated) panicked: %v", text, i, pan), map[string]interface{}{"input": text, "dataset": i, "class": class})
+			return
+		}
+		if err == nil && text != "" && i == 0 {
+			rep.Count("objectstore_accepted", 1)
+			if sentence, lexOk := rm.InGrammar(text); !lexOk || !sentence {
+				rep.Violation("C10|objectstore-accepted-outside-grammar|"+text, fmt.Sprintf("%q is not a sentence of ZitiQl.g4 but objectz.ObjectStore accepted it", text), map[string]interface{}{"input": text, "class": class})
+				return
+			}
+		}
+	}
 }
 
 // c10Pool: every sequence of three parses over five input classes; each parse must give the result
